@@ -405,6 +405,26 @@ Proof.
   - rewrite nth_overflow by exact L. destruct st; reflexivity.
 Qed.
 
+(* "no other goroutine needed": on an error path that waits for nobody, the goroutine alone
+   (a run made of its own steps only) reaches a cancelled state within its budget *)
+Theorem solo_cancels N (Hwf : wf N = true) (Hfc : faults_cancel N = true) D io_ret
+  (Hio : forall kd, kd <> Unknown -> io_ret kd = true) :
+  forall n p g, reach N D io_ret g -> on_fail_path N true n p g ->
+  exists tr g', lsteps N D io_ret tr g g' /\ cancelled g' = true /\ Forall (eq p) tr /\ length tr <= n.
+Proof.
+  induction n as [|n IH]; intros p g R H.
+  - pose proof (ofp_pos N true 0 p g H). lia.
+  - destruct (cancelled g) eqn:C.
+    + exists [], g. repeat split; [constructor|exact C|constructor|cbn; lia].
+    + destruct (direct_enabled N D io_ret Hio (S n) p g (reach_inv N D io_ret Hwf g R) H C) as [g1 S1].
+      assert (R1 : reach N D io_ret g1) by (eapply reach_step; [exact R|exists p; exact S1]).
+      destruct (own_step N D io_ret true (S n) p g g1 H C S1) as [C1|[_ H1]].
+      * exists [p], g1. repeat split; [econstructor; [exact S1|constructor]|exact C1|repeat constructor|cbn; lia].
+      * replace (S n - 1) with n in H1 by lia.
+        destruct (IH p g1 R1 H1) as [tr [g2 [T [C2 [F L]]]]].
+        exists (p :: tr), g2. repeat split; [econstructor; eassumption|exact C2|constructor; [reflexivity|exact F]|cbn; lia].
+Qed.
+
 (* A + B + "every fault reaches ctx.cancel" *)
 Theorem fault_terminates N (Hwf : wf N = true) (Hfc : faults_cancel N = true) D io_ret :
   io_assumptions io_ret true ->
@@ -416,6 +436,8 @@ Theorem fault_terminates N (Hwf : wf N = true) (Hfc : faults_cancel N = true) D 
     (cancelled g2 = true \/ (count_occ Nat.eq_dec tr p < cmL h + 2 /\ procs g2 p <> Exited)) /\
     (cc true (qx N p f) false h = true ->
        (cancelled g2 = true \/ enabled N D io_ret p g2) /\
+       (exists tr' g3, lsteps N D io_ret tr' g2 g3 /\ cancelled g3 = true /\ Forall (eq p) tr' /\
+                       length tr' <= cmL h + 2) /\
        (stuck N D io_ret g2 -> cancelled g2 = true /\ forall q, procs g2 q = Exited)) /\
     (cancelled g2 = true ->
        (forall n g3, steps N D io_ret n g2 g3 -> n <= total N D g2) /\
@@ -447,7 +469,12 @@ Proof.
     { destruct (fault_path_trace N D io_ret true tr g1 g2 T _ p (Hpath true Hd)) as [C|[Hlt Hp]]; [left; exact C|].
       destruct (cancelled g2) eqn:C2; [left; reflexivity|]. right.
       eapply direct_enabled; [exact Hio|exact (reach_inv N D io_ret Hwf g2 R2)|exact Hp|exact C2]. }
-    split; [exact En|]. intro St.
+    split; [exact En|]. split.
+    { destruct (fault_path_trace N D io_ret true tr g1 g2 T _ p (Hpath true Hd)) as [C|[Hlt Hp]].
+      - exists [], g2. repeat split; [constructor|exact C|constructor|cbn; lia].
+      - destruct (solo_cancels N Hwf Hfc D io_ret Hio _ p g2 R2 Hp) as [tr' [g3 [T3 [C3 [F3 L3]]]]].
+        exists tr', g3. repeat split; try assumption. lia. }
+    intro St.
     assert (C2 : cancelled g2 = true).
     { destruct En as [C|[g3 S3]]; [exact C|]. exfalso. apply (St g3). exists p. exact S3. }
     split; [exact C2|]. apply (never_stuck N D io_ret Hio g2 (reach_inv N D io_ret Hwf g2 R2) C2 St).
